@@ -10,28 +10,36 @@ Import ListNotations.
 Local Open Scope N_scope.
 
 (** ** Totality / memory safety: no host call ever reaches [Fault] (an out-of-bounds slice of memory
-    or of a host-side buffer, i.e. a Rust panic), for ALL argument values and all memories. *)
+    or of a host-side buffer, or an overflowing usize addition, i.e. a Rust panic), for ALL values of
+    the arguments within their Wasm types ([args_wf]: i32 arguments < 2^32, i64 arguments < 2^64)
+    and all memories. *)
 Theorem host_total_v0 : forall X f args (s : st (host X)),
-  lenN (h_state (hs s)) <= 16384 -> snd (call_v0 f args s) <> Fault.
+  args_wf (sig0 f) args -> lenN (h_state (hs s)) <= 16384 -> snd (call_v0 f args s) <> Fault.
 Proof. exact (@call_v0_safe). Qed.
 Print Assumptions host_total_v0.
 
 Theorem host_total_v1 : forall f args (s : st (host v1ext)),
-  v1_ok s -> snd (call_v1 f args s) <> Fault.
+  args_wf (sig1 f) args -> v1_ok s -> snd (call_v1 f args s) <> Fault.
 Proof. exact call_v1_safe. Qed.
 Print Assumptions host_total_v1.
 
 (** ... and this holds after any history of host calls, with arbitrary memory contents and energy
     before every call and arbitrary responses to interrupts. *)
 Theorem host_total_history_v0 : forall X cs (s : st (host X)) f a m e,
-  lenN (h_state (hs s)) <= 16384 -> snd (call_v0 f a (perturb (run0 cs s) m e)) <> Fault.
+  args_wf (sig0 f) a -> lenN (h_state (hs s)) <= 16384 -> snd (call_v0 f a (perturb (run0 cs s) m e)) <> Fault.
 Proof. exact (@v0_history_total). Qed.
 Print Assumptions host_total_history_v0.
 
 Theorem host_total_history_v1 : forall os (s : st (host v1ext)) f a m e,
-  v1_ok s -> logs_ok s -> snd (call_v1 f a (perturb (run1 os s) m e)) <> Fault.
+  args_wf (sig1 f) a -> v1_ok s -> logs_ok s -> snd (call_v1 f a (perturb (run1 os s) m e)) <> Fault.
 Proof. exact v1_history_total. Qed.
 Print Assumptions host_total_history_v1.
+
+(** usize additions are modelled by a checked operator ([uadd], [Fault] on overflow); for two u32
+    operands it returns the exact sum *)
+Theorem usize_add_of_u32_exact : forall X a b (s : st X), a < W32 -> b < W32 -> uadd a b s = (s, Ok (a + b)).
+Proof. exact uadd_u32. Qed.
+Print Assumptions usize_add_of_u32_exact.
 
 (** ** Legacy state never exceeds 16 KiB *)
 Theorem v0_state_le_16k : forall X f args (s : st (host X)),
@@ -74,7 +82,7 @@ Proof. exact (@send_param_limit). Qed.
 Print Assumptions send_parameter_limit.
 
 Theorem invoke_call_parameter_limit : forall data maxp (s s' : st (host v1ext)) i,
-  parse_call_args data maxp s = (s', Ok i) -> le_val (firstnN 2 (skipnN 16 data)) <= maxp.
+  parse_call_args data maxp s = (s', Ok i) -> u16 (le_val (firstnN 2 (skipnN 16 data))) <= maxp.
 Proof. exact parse_call_args_param_limit. Qed.
 Print Assumptions invoke_call_parameter_limit.
 
@@ -132,6 +140,19 @@ Theorem growth_charged_entry_resize : forall a b (s : st (host v1ext)), evs s = 
   alloc_paid additional_entry_size_cost (evs (fst (state_entry_resize a b s))) = true.
 Proof. exact entry_resize_alloc_paid. Qed.
 Print Assumptions growth_charged_entry_resize.
+
+(** ** Names (after the fix a617658c1): the receive name of `send` and the entrypoint name of
+    `invoke` are scanned / copied only after their length was checked: every piece of work not covered
+    by a length-proportional charge is at most 100 bytes, whatever the length arguments *)
+Theorem name_work_bounded_send : forall X a b c d e f g (s : st (host X)), evs s = [] ->
+  fixed_le 100 (evs (fst (send a b c d e f g s))) = true.
+Proof. exact send_fixed_work_bounded. Qed.
+Print Assumptions name_work_bounded_send.
+
+Theorem name_work_bounded_invoke : forall a b c (s : st (host v1ext)), evs s = [] ->
+  fixed_le 100 (evs (fst (invoke a b c s))) = true.
+Proof. exact invoke_fixed_work_bounded. Qed.
+Print Assumptions name_work_bounded_invoke.
 
 (** ** Result encodings *)
 Theorem result_encoding_log_event : forall X a b (s s' : st (host X)) r, log_event a b s = (s', Ok r) ->
@@ -201,6 +222,10 @@ Theorem cost_monotone :
   /\ mono hash_sha3_256_cost /\ mono hash_keccak_256_cost.
 Proof. exact costs_monotone. Qed.
 Print Assumptions cost_monotone.
+
+Theorem cost_monotone_create_entry : mono create_entry_cost.
+Proof. exact create_entry_cost_monotone. Qed.
+Print Assumptions cost_monotone_create_entry.
 
 Theorem cost_at_least_linear : forall x, x < W32c ->
   x <= copy_from_host_cost x /\ x <= copy_to_host_cost x /\ x <= copy_parameter_cost x /\ 1000 * x <= log_event_cost x
